@@ -132,3 +132,18 @@ pub proof fn lemma_find_bridge(w: Seq<Factor>, c: Carrier, s: Source, d: Dest, s
     assert forall|j: int| 0 <= j < w.len() && fkey(#[trigger] w[j], c, s, d, st) implies find_spec(w, c, s, d, st) is Some by { lemma_find_some(w, c, s, d, st, j); }
     if forall|j: int| 0 <= j < w.len() ==> !fkey(#[trigger] w[j], c, s, d, st) { lemma_find_none(w, c, s, d, st); }
 }
+
+// ---- component-wise views of the RenNrenCo2 operators at f32 level (used by the operator contracts and by nba_ok)
+// component-wise views
+pub open spec fn r3_add(a: RenNrenCo2, b: RenNrenCo2) -> RenNrenCo2 {
+    RenNrenCo2 { ren: AddSpec::add_spec(a.ren, b.ren), nren: AddSpec::add_spec(a.nren, b.nren), co2: AddSpec::add_spec(a.co2, b.co2) }
+}
+pub open spec fn r3_sub(a: RenNrenCo2, b: RenNrenCo2) -> RenNrenCo2 {
+    RenNrenCo2 { ren: SubSpec::sub_spec(a.ren, b.ren), nren: SubSpec::sub_spec(a.nren, b.nren), co2: SubSpec::sub_spec(a.co2, b.co2) }
+}
+pub open spec fn r3_scale(a: RenNrenCo2, k: f32) -> RenNrenCo2 {
+    RenNrenCo2 { ren: MulSpec::mul_spec(a.ren, k), nren: MulSpec::mul_spec(a.nren, k), co2: MulSpec::mul_spec(a.co2, k) }
+}
+pub open spec fn r3_lscale(k: f32, a: RenNrenCo2) -> RenNrenCo2 {
+    RenNrenCo2 { ren: MulSpec::mul_spec(k, a.ren), nren: MulSpec::mul_spec(k, a.nren), co2: MulSpec::mul_spec(k, a.co2) }
+}
